@@ -39,6 +39,7 @@ impl FecEncoder for RaptorEncoder {
 
 pub struct RaptorDecoder {
     source_block_size: usize,
+    nb_source_symbols: usize,
     decoder: raptor_code::SourceBlockDecoder,
     data: Option<Vec<u8>>,
 }
@@ -53,6 +54,7 @@ impl RaptorDecoder {
         RaptorDecoder {
             decoder: raptor_code::SourceBlockDecoder::new(nb_source_symbols),
             source_block_size,
+            nb_source_symbols,
             data: None,
         }
     }
@@ -69,6 +71,29 @@ impl FecDecoder for RaptorDecoder {
             encoding_symbol.len(),
             self.source_block_size
         );
+
+        // The block is partitioned in nb_long symbols of long_size bytes followed by symbols
+        // of small_size bytes, repair symbols have the size of the biggest source symbol.
+        // The codec panics on any other size.
+        let small_size = self.source_block_size / self.nb_source_symbols;
+        let nb_long = self.source_block_size % self.nb_source_symbols;
+        let long_size = match nb_long {
+            0 => small_size,
+            _ => small_size + 1,
+        };
+        let expected_size = match esi as usize {
+            esi if esi < nb_long => long_size,
+            esi if esi < self.nb_source_symbols => small_size,
+            _ => long_size,
+        };
+        if encoding_symbol.len() != expected_size || expected_size == 0 {
+            log::error!(
+                "Encoding symbol of {} bytes instead of {}",
+                encoding_symbol.len(),
+                expected_size
+            );
+            return;
+        }
 
         self.decoder.push_encoding_symbol(encoding_symbol, esi)
     }
